@@ -30,7 +30,10 @@ def generate(ctx):
         ish = rng.choice([(3,), (2, 3), (2, 1, 2), (5,), (1,)])
         osh = rng.choice([(2,), (2, 2), (4,), (1,), (3, 1)])
         yield {"part": "linear", "kind": kind, "inshape": list(ish), "outshape": list(osh), "bias": rng.random() < 0.5,
-               "B": rng.randint(1, 4), "steps": rng.randint(1, 3), "seed": rng.randrange(1 << 30)}
+               "B": rng.randint(1, 4), "steps": rng.randint(1, 3), "seed": rng.randrange(1 << 30),
+               # with per-synapse delays the synaptic data have the per-output form (B x out x in): hold the input constant for
+               # longer than the longest delay and the delayed map is the undelayed one
+               "delay_steps": rng.choice([None, None, 2, 3])}
     if th:
         grid = [(hw, hw, c, f, kh, kw, s, p, d) for hw in range(3, 10) for c in (1, 2, 3) for f in (1, 2, 3)
                 for kh in (1, 2, 3) for kw in (1, 2, 3) for s in (1, 2, 3) for p in (0, 1, 2) for d in (1, 2)
@@ -139,15 +142,20 @@ def _linear(ctx, desc):
     ish, osh = tuple(desc["inshape"]), tuple(desc["outshape"])
     B = desc["B"]
     try:
+        K = desc.get("delay_steps")
+        dl = float(K) if K else None
         if kind == "dense":
-            conn = LinearDense(ish, osh, 1.0, synapse=_syn(), bias=desc["bias"], batch_size=B)
+            conn = LinearDense(ish, osh, 1.0, synapse=_syn(), bias=desc["bias"], batch_size=B, delay=dl)
         elif kind == "direct":
-            conn = LinearDirect(ish, 1.0, synapse=_syn(), bias=desc["bias"], batch_size=B)
+            conn = LinearDirect(ish, 1.0, synapse=_syn(), bias=desc["bias"], batch_size=B, delay=dl)
             osh = ish
         else:
-            conn = LinearLateral(ish, 1.0, synapse=_syn(), bias=desc["bias"], batch_size=B)
+            conn = LinearLateral(ish, 1.0, synapse=_syn(), bias=desc["bias"], batch_size=B, delay=dl)
             osh = ish
         conn.to(torch.float64)
+        if K:
+            conn.delay = torch.randint(0, K + 1, conn.delay.shape, generator=g).to(torch.float64)
+            ctx.count("delayed_linear_cases")
     except Exception as e:  # noqa: BLE001
         return ctx.violation(ctx.exc_signature(e, f"construct.{kind}"), f"{type(e).__name__}: {str(e)[:140]}", desc)
     nin, nout = math.prod(ish), math.prod(osh)
@@ -157,10 +165,13 @@ def _linear(ctx, desc):
     ctx.case(f"linear/{kind}/in{len(ish)}d/out{len(osh)}d/bias{int(desc['bias'])}/B{B}")
     if tuple(conn.inshape) != ish or tuple(conn.outshape) != osh:
         return ctx.violation(f"{kind}.advertised_shape", f"inshape {conn.inshape} outshape {conn.outshape}", desc)
-    for _ in range(desc["steps"]):
-        x = torch.randn((B,) + ish, generator=g, dtype=torch.float64)
+    xconst = torch.randn((B,) + ish, generator=g, dtype=torch.float64)
+    for si in range(desc["steps"] + (K or 0)):
+        x = xconst if K else torch.randn((B,) + ish, generator=g, dtype=torch.float64)
         try:
             out = _drive(conn, x)
+            if K and si < K:
+                continue      # the delay window still holds the resting state
         except Exception as e:  # noqa: BLE001
             return ctx.violation(ctx.exc_signature(e, f"forward.{kind}"), f"{type(e).__name__}: {str(e)[:140]}", desc)
         W, b = conn.weight.detach(), (conn.bias.detach() if desc["bias"] else None)
